@@ -1,4 +1,383 @@
 import OtelVerif.Model.C18
-/-! C18 property theorems (stub) -/
+/-!
+# C18 — the memory limiter refuses data exactly while usage is at or above the soft limit
+
+Property theorems about `Model/C18.lean`.  All quantify over every configuration accepted by
+`validate`, every history of readings / GC effects / instants and every start/shutdown sequence; no
+bound on lengths or values (beyond the `uint32`/`uint64` ranges of the Go fields and, on the
+percentage path, `total < 2^57`, DESIGN §C18).
+-/
 namespace OtelVerif.C18
+
+/-! ## what `Validate` guarantees -/
+
+theorem validate_ok {c : Config} (h : validate c = 0) :
+    0 < c.checkInterval ∧ c.gcHard ≤ c.gcSoft ∧ (c.limitMiB ≠ 0 ∨ c.limitPct ≠ 0) ∧ c.limitPct ≤ 100 ∧ c.spikePct ≤ 100 ∧
+    (0 < c.limitMiB → c.spikeMiB < c.limitMiB) ∧ (0 < c.limitPct → c.spikePct < c.limitPct) := by
+  unfold validate at h
+  repeat' split at h
+  all_goals first | omega | (refine ⟨?_, ?_, ?_, ?_, ?_, ?_, ?_⟩ <;> omega)
+
+theorem newFixed_le (limit spike : Nat) (h : spike ≤ limit) : (newFixed limit spike).spike ≤ (newFixed limit spike).limit := by
+  unfold newFixed
+  split
+  · exact Nat.div_le_self _ _
+  · exact h
+
+/-- **no underflow**: for every accepted configuration the spike limit never exceeds the limit, so the
+`uint64` subtraction `memAllocLimit - memSpikeLimit` does not wrap -/
+theorem C18_no_underflow (c : Config) (total : Nat) (hv : validate c = 0) (hwf : c.wf) (ht : total < 2 ^ 57) :
+    (mkChecker c total).spike ≤ (mkChecker c total).limit ∧ (mkChecker c total).limit < W := by
+  obtain ⟨_, _, h3, h4, h5, h6, h7⟩ := validate_ok hv
+  obtain ⟨w1, w2, _, _⟩ := hwf
+  unfold mkChecker
+  split
+  · rename_i hl
+    have hs : c.spikeMiB < c.limitMiB := h6 (by omega)
+    have e1 : wmul c.limitMiB mib = c.limitMiB * 1048576 := by unfold wmul W mib; omega
+    have e2 : wmul c.spikeMiB mib = c.spikeMiB * 1048576 := by unfold wmul W mib; omega
+    rw [e1, e2]
+    refine ⟨newFixed_le _ _ (by omega), ?_⟩
+    have : (newFixed (c.limitMiB * 1048576) (c.spikeMiB * 1048576)).limit = c.limitMiB * 1048576 := by
+      unfold newFixed; split <;> rfl
+    rw [this]; unfold W; omega
+  · rename_i hl
+    have hl0 : c.limitMiB = 0 := by omega
+    have hp : 0 < c.limitPct := by omega
+    have hs : c.spikePct < c.limitPct := h7 hp
+    have b1 : c.limitPct * total ≤ 100 * total := Nat.mul_le_mul_right _ h4
+    have b2 : c.spikePct * total ≤ c.limitPct * total := Nat.mul_le_mul_right _ (Nat.le_of_lt hs)
+    have e1 : wmul c.limitPct total = c.limitPct * total := by unfold wmul W; apply Nat.mod_eq_of_lt; omega
+    have e2 : wmul c.spikePct total = c.spikePct * total := by unfold wmul W; apply Nat.mod_eq_of_lt; omega
+    unfold newPct
+    rw [e1, e2]
+    refine ⟨newFixed_le _ _ (Nat.div_le_div_right b2), ?_⟩
+    have : (newFixed (c.limitPct * total / 100) (c.spikePct * total / 100)).limit = c.limitPct * total / 100 := by
+      unfold newFixed; split <;> rfl
+    rw [this]
+    have : c.limitPct * total / 100 ≤ c.limitPct * total := Nat.div_le_self _ _
+    unfold W; omega
+
+/-- with `spike ≤ limit` the soft limit computed by the code is the true difference -/
+theorem wsub_eq {limit spike : Nat} (h : spike ≤ limit) (hl : limit < W) : wsub limit spike = limit - spike := by
+  unfold wsub W at *; omega
+
+theorem aboveSoft_iff (k : Checker) (h : k.spike ≤ k.limit) (hl : k.limit < W) (alloc : Nat) :
+    k.aboveSoft alloc = true ↔ alloc ≥ k.limit - k.spike := by
+  simp [Checker.aboveSoft, wsub_eq h hl]
+
+/-! ## one check -/
+
+/-- the minimum GC interval of the severity of a reading -/
+def minInterval (k : Checker) (gs gh : Int) (alloc : Nat) : Int := if k.aboveHard alloc then gh else gs
+
+theorem check_below (k : Checker) (gs gh : Int) (s : LState) (r : Reading) (ha : k.aboveSoft r.alloc = false) :
+    check k gs gh s r = { st := { s with mustRefuse := false }, gcRan := false, latest := r.alloc } := by
+  simp [check, ha]
+
+theorem check_gc (k : Checker) (gs gh : Int) (s : LState) (r : Reading) (ha : k.aboveSoft r.alloc = true)
+    (hd : r.now - s.lastGC > minInterval k gs gh r.alloc) :
+    check k gs gh s r = { st := { mustRefuse := k.aboveSoft r.allocAfterGC, lastGC := r.now + r.gcDur }, gcRan := true, latest := r.allocAfterGC } := by
+  unfold minInterval at hd
+  simp only [check, ha, Bool.not_true, Bool.false_eq_true, if_false]
+  rw [if_pos hd]
+
+theorem check_nogc (k : Checker) (gs gh : Int) (s : LState) (r : Reading) (ha : k.aboveSoft r.alloc = true)
+    (hd : ¬ r.now - s.lastGC > minInterval k gs gh r.alloc) :
+    check k gs gh s r = { st := { s with mustRefuse := true }, gcRan := false, latest := r.alloc } := by
+  unfold minInterval at hd
+  simp only [check, ha, Bool.not_true, Bool.false_eq_true, if_false]
+  rw [if_neg hd]
+
+/-- the measurement the decision is based on is the post-GC reading exactly when a GC ran -/
+theorem C18_latest (k : Checker) (gs gh : Int) (s : LState) (r : Reading) :
+    (check k gs gh s r).latest = if (check k gs gh s r).gcRan then r.allocAfterGC else r.alloc := by
+  cases ha : k.aboveSoft r.alloc with
+  | false => rw [check_below k gs gh s r ha]; rfl
+  | true =>
+    by_cases hd : r.now - s.lastGC > minInterval k gs gh r.alloc
+    · rw [check_gc k gs gh s r ha hd]; rfl
+    · rw [check_nogc k gs gh s r ha hd]; rfl
+
+/-- **refuse iff**: after a check the limiter refuses iff the latest measurement is at or above limit − spike -/
+theorem C18_refuse_iff (k : Checker) (h : k.spike ≤ k.limit) (hl : k.limit < W) (gs gh : Int) (s : LState) (r : Reading) :
+    (check k gs gh s r).st.mustRefuse = true ↔ (check k gs gh s r).latest ≥ k.limit - k.spike := by
+  cases ha : k.aboveSoft r.alloc with
+  | false =>
+    rw [check_below k gs gh s r ha]
+    have := aboveSoft_iff k h hl r.alloc
+    rw [ha] at this
+    simpa using this
+  | true =>
+    by_cases hd : r.now - s.lastGC > minInterval k gs gh r.alloc
+    · rw [check_gc k gs gh s r ha hd]
+      exact aboveSoft_iff k h hl r.allocAfterGC
+    · rw [check_nogc k gs gh s r ha hd]
+      have := (aboveSoft_iff k h hl r.alloc).1 ha
+      simpa using this
+
+/-- **GC only when due** (and whenever due): a forced collection runs iff usage is at or above the soft
+limit and more than the minimum interval of that severity has passed since the last one finished -/
+theorem C18_gc_iff_due (k : Checker) (h : k.spike ≤ k.limit) (hl : k.limit < W) (gs gh : Int) (s : LState) (r : Reading) :
+    (check k gs gh s r).gcRan = true ↔
+      (r.alloc ≥ k.limit - k.spike ∧ r.now - s.lastGC > (if r.alloc ≥ k.limit then gh else gs)) := by
+  have hm : minInterval k gs gh r.alloc = (if r.alloc ≥ k.limit then gh else gs) := by
+    simp [minInterval, Checker.aboveHard]
+  rw [← hm]
+  cases ha : k.aboveSoft r.alloc with
+  | false =>
+    rw [check_below k gs gh s r ha]
+    have := aboveSoft_iff k h hl r.alloc
+    rw [ha] at this
+    constructor
+    · intro hc; simp at hc
+    · intro hc; exact absurd (this.2 hc.1) (by simp)
+  | true =>
+    have hsoft := (aboveSoft_iff k h hl r.alloc).1 ha
+    by_cases hd : r.now - s.lastGC > minInterval k gs gh r.alloc
+    · rw [check_gc k gs gh s r ha hd]; exact ⟨fun _ => ⟨hsoft, hd⟩, fun _ => rfl⟩
+    · rw [check_nogc k gs gh s r ha hd]
+      constructor
+      · intro hc; simp at hc
+      · intro hc; exact absurd hc.2 hd
+
+/-- `lastGCDone` moves only when a GC ran, to the instant the GC finished -/
+theorem C18_lastGC (k : Checker) (gs gh : Int) (s : LState) (r : Reading) :
+    (check k gs gh s r).st.lastGC = if (check k gs gh s r).gcRan then r.now + r.gcDur else s.lastGC := by
+  cases ha : k.aboveSoft r.alloc with
+  | false => rw [check_below k gs gh s r ha]; rfl
+  | true =>
+    by_cases hd : r.now - s.lastGC > minInterval k gs gh r.alloc
+    · rw [check_gc k gs gh s r ha hd]; rfl
+    · rw [check_nogc k gs gh s r ha hd]; rfl
+
+/-! ## every history -/
+
+/-- after every check of every history the mode is "refuse" iff that check's latest measurement is at
+or above the soft limit — there is no hysteresis and no dependence on earlier readings -/
+theorem C18_history_refuse_iff (k : Checker) (h : k.spike ≤ k.limit) (hl : k.limit < W) (gs gh : Int) :
+    ∀ (rs : List Reading) (s : LState), ∀ o ∈ runChecks k gs gh s rs,
+      (o.st.mustRefuse = true ↔ o.latest ≥ k.limit - k.spike) := by
+  intro rs
+  induction rs with
+  | nil => intro s o ho; simp [runChecks] at ho
+  | cons r rs ih =>
+    intro s o ho
+    simp only [runChecks, List.mem_cons] at ho
+    rcases ho with rfl | ho
+    · exact C18_refuse_iff k h hl gs gh s r
+    · exact ih _ o ho
+
+/-- the current mode after a non-empty history is decided by the last check alone -/
+theorem C18_mode_after_history (k : Checker) (h : k.spike ≤ k.limit) (hl : k.limit < W) (gs gh : Int)
+    (rs : List Reading) (r : Reading) : ∀ s : LState,
+    ((finalState k gs gh s (rs ++ [r])).mustRefuse = true ↔
+      (check k gs gh (finalState k gs gh s rs) r).latest ≥ k.limit - k.spike) := by
+  induction rs with
+  | nil =>
+    intro s
+    rw [List.nil_append, finalState.eq_2, finalState.eq_1, finalState.eq_1]
+    exact C18_refuse_iff k h hl gs gh s r
+  | cons x xs ih =>
+    intro s
+    rw [List.cons_append, finalState.eq_2, finalState.eq_2]
+    exact ih _
+
+/-- GC throttling over histories: while no more than the hard-limit interval (the smaller one, by
+validation) has passed since the last GC finished, no check forces a GC, whatever the readings -/
+theorem C18_gc_throttled (k : Checker) (gs gh : Int) (hgs : gh ≤ gs) :
+    ∀ (rs : List Reading) (s : LState), (∀ r ∈ rs, r.now - s.lastGC ≤ gh) →
+      ∀ o ∈ runChecks k gs gh s rs, o.gcRan = false ∧ o.st.lastGC = s.lastGC := by
+  intro rs
+  induction rs with
+  | nil => intro s _ o ho; simp [runChecks] at ho
+  | cons r rs ih =>
+    intro s hall o ho
+    have hr := hall r (by simp)
+    have hstep : (check k gs gh s r).gcRan = false ∧ (check k gs gh s r).st.lastGC = s.lastGC := by
+      cases ha : k.aboveSoft r.alloc with
+      | false => rw [check_below k gs gh s r ha]; exact ⟨rfl, rfl⟩
+      | true =>
+        have hd : ¬ r.now - s.lastGC > minInterval k gs gh r.alloc := by
+          unfold minInterval; split <;> omega
+        rw [check_nogc k gs gh s r ha hd]; exact ⟨rfl, rfl⟩
+    simp only [runChecks, List.mem_cons] at ho
+    rcases ho with rfl | ho
+    · exact hstep
+    · have := ih (check k gs gh s r).st (by intro r' hr'; rw [hstep.2]; exact hall r' (by simp [hr'])) o ho
+      rw [hstep.2] at this
+      exact this
+
+/-! ## the search oracle -/
+
+theorem ite_sing_nil {α : Type} {p : Prop} [Decidable p] {x : α} : (if p then [x] else []) = [] ↔ ¬p := by
+  split <;> simp [*]
+
+/-- soundness: an observed check the oracle accepts satisfies the property's clauses (stated over ℤ) -/
+theorem C18_check_sound (k : Checker) (gs gh prev : Int) (r : Reading) (o : ObsCheck)
+    (h : checkObs k gs gh prev r o = []) :
+    (k.spike ≤ k.limit) ∧
+    (o.refuse = true ↔ obsLatest r o ≥ (k.limit : Int) - k.spike) ∧
+    (o.gcRan = true → (r.alloc : Int) ≥ (k.limit : Int) - k.spike ∧ r.now - prev > (if (r.alloc : Int) ≥ k.limit then gh else gs)) ∧
+    (o.gcRan = false → o.lastGC = prev) := by
+  simp only [checkObs, List.append_eq_nil_iff] at h
+  obtain ⟨⟨⟨h1, h2⟩, h3⟩, h4⟩ := h
+  have g1 := ite_sing_nil.1 h1
+  have g2 := ite_sing_nil.1 h2
+  have g3 := ite_sing_nil.1 h3
+  have g4 := ite_sing_nil.1 h4
+  refine ⟨by omega, ?_, ?_, ?_⟩
+  · cases hr : o.refuse <;> simp_all
+  · intro hg
+    simp only [hg, Bool.true_and, Bool.not_eq_true', Bool.and_eq_false_iff, decide_eq_false_iff_not, not_or, Decidable.not_not] at g3
+    simpa using g3
+  · intro hg
+    simp only [hg, Bool.not_false, Bool.true_and, bne_iff_ne, ne_eq, Decidable.not_not] at g4
+    exact g4
+
+/-- the model's own checks pass the oracle, for every checker without underflow, state and reading -/
+theorem C18_model_passes_oracle (k : Checker) (h : k.spike ≤ k.limit) (hl : k.limit < W) (gs gh : Int) (s : LState) (r : Reading) :
+    checkObs k gs gh s.lastGC r
+      { refuse := (check k gs gh s r).st.mustRefuse, gcRan := (check k gs gh s r).gcRan, lastGC := (check k gs gh s r).st.lastGC } = [] := by
+  have hsoft : ∀ a : Nat, k.aboveSoft a = decide ((a : Int) ≥ (k.limit : Int) - k.spike) := by
+    intro a
+    have := aboveSoft_iff k h hl a
+    cases hb : k.aboveSoft a
+    · rw [hb] at this; simp only [Bool.false_eq_true, false_iff] at this
+      symm; simp only [decide_eq_false_iff_not]; omega
+    · rw [hb] at this; simp only [true_iff] at this
+      symm; simp only [decide_eq_true_eq]; omega
+  have hnn : ¬ ((k.limit : Int) - k.spike < 0) := by omega
+  have hm : minInterval k gs gh r.alloc = (if (r.alloc : Int) ≥ k.limit then gh else gs) := by
+    simp only [minInterval, Checker.aboveHard, decide_eq_true_eq, ge_iff_le, Int.ofNat_le]
+  cases ha : k.aboveSoft r.alloc with
+  | false =>
+    rw [check_below k gs gh s r ha]
+    have := hsoft r.alloc; rw [ha] at this
+    simp [checkObs, obsLatest, hnn, ← this]
+  | true =>
+    by_cases hd : r.now - s.lastGC > minInterval k gs gh r.alloc
+    · rw [check_gc k gs gh s r ha hd]
+      have h1 := hsoft r.alloc; rw [ha] at h1
+      have h2 := hsoft r.allocAfterGC
+      rw [hm] at hd
+      simp only [ge_iff_le, Int.ofNat_le, gt_iff_lt] at hd
+      simp [checkObs, obsLatest, hnn, ← h1, ← h2]
+      exact hd
+    · rw [check_nogc k gs gh s r ha hd]
+      have h1 := hsoft r.alloc; rw [ha] at h1
+      simp [checkObs, obsLatest, hnn, ← h1]
+
+/-! ## processor and extension -/
+
+/-- while refusing: nothing is forwarded and the caller gets the non-permanent data-refused error -/
+theorem C18_consume_refusing {α : Type} (payload : α) (next : α → Res) :
+    (consume true payload next).1 = none ∧ (consume true payload next).2 = .refused ∧
+    (consume true payload next).2.isPermanent = false := ⟨rfl, rfl, rfl⟩
+
+/-- while not refusing: the payload is forwarded as it is and downstream's result is returned -/
+theorem C18_consume_accepting {α : Type} (payload : α) (next : α → Res) :
+    (consume false payload next).1 = some payload ∧ (consume false payload next).2 = next payload := ⟨rfl, rfl⟩
+
+/-! ## reference counting -/
+
+def RC.Inv (s : RC) : Prop := s.goroutine = decide (0 < s.ref) ∧ (0 < s.ref → s.ticker = true)
+
+theorem RC.step_inv (s : RC) (o : RCOp) (h : s.Inv) : (s.step o).1.Inv := by
+  obtain ⟨h1, h2⟩ := h
+  cases o with
+  | start =>
+    simp only [RC.step]
+    split
+    · simp [RC.Inv]
+    · rename_i hne
+      have : 0 < s.ref := by omega
+      simp [RC.Inv, h1, this, h2 this]
+  | shutdown =>
+    simp only [RC.step]
+    split
+    · rename_i h0; exact ⟨h1, h2⟩
+    · simp [RC.Inv]
+    · rename_i n hn
+      have : 0 < s.ref := by omega
+      simp [RC.Inv, h1, this, h2 this]
+
+theorem RC.run_inv (ops : List RCOp) : ∀ s : RC, s.Inv → (s.run ops).Inv := by
+  induction ops with
+  | nil => intro s h; exact h
+  | cons o os ih => intro s h; exact ih _ (RC.step_inv s o h)
+
+/-- users = starts − successful shutdowns (a shutdown at zero is rejected and changes nothing) -/
+def users : List RCOp → Nat := List.foldl (fun n o => match o with | .start => n + 1 | .shutdown => n - 1) 0
+
+theorem RC.run_ref (ops : List RCOp) : ∀ (s : RC) (n : Nat), s.ref = n →
+    (s.run ops).ref = ops.foldl (fun n o => match o with | .start => n + 1 | .shutdown => n - 1) n := by
+  induction ops with
+  | nil => intro s n h; exact h
+  | cons o os ih =>
+    intro s n h
+    simp only [RC.run, List.foldl_cons]
+    apply ih
+    cases o with
+    | start => simp only [RC.step]; split <;> simp_all
+    | shutdown =>
+      simp only [RC.step]
+      split
+      · rename_i h0; simp only; omega
+      · rename_i h0; simp only; omega
+      · rename_i m hm; simp only; omega
+
+/-- **shared checker**: for every start/shutdown sequence of the sharers, memory is being checked
+(goroutine alive and ticker armed) iff at least one user has started and not yet shut down -/
+theorem C18_refcount (ops : List RCOp) :
+    ((RC.run {} ops).checking = true ↔ 0 < users ops) ∧ (RC.run {} ops).ref = users ops := by
+  have hinv := RC.run_inv ops {} (by simp [RC.Inv])
+  have href := RC.run_ref ops {} 0 rfl
+  refine ⟨?_, href⟩
+  unfold users
+  rw [← href]
+  obtain ⟨h1, h2⟩ := hinv
+  unfold RC.checking
+  constructor
+  · intro hc
+    simp only [Bool.and_eq_true] at hc
+    simpa [h1] using hc.1
+  · intro hp
+    simp [h1, hp, h2 hp]
+
+/-- a shutdown without a preceding start is an error and leaves the state unchanged -/
+theorem C18_shutdown_not_started (s : RC) (h : s.ref = 0) : s.step .shutdown = (s, true) := by
+  simp [RC.step, h]
+
+/-- the unrepaired `Start` (pinned tree) violates the statement: started again after a full shutdown
+the limiter has a user but its ticker is dead.  Witness `start, shutdown, start` (replayed on the real
+code by the `refcount` harness, corpus case 0). -/
+def C18_refcount_pinned_full : Prop :=
+  ∀ ops : List RCOp, ((RC.runPinned {} ops).checking = true ↔ 0 < users ops)
+
+theorem C18_refcount_pinned_full_fails : ¬ C18_refcount_pinned_full := by
+  intro h
+  have := h [.start, .shutdown, .start]
+  revert this
+  decide
+
+/-! ## non-vacuity -/
+
+def exCfg : Config := { checkInterval := 1, gcSoft := 10, gcHard := 2, limitMiB := 100, spikeMiB := 20, limitPct := 0, spikePct := 0 }
+
+example : validate exCfg = 0 ∧ exCfg.wf := ⟨by decide, by simp [Config.wf, exCfg]⟩
+example : mkChecker exCfg 0 = ⟨104857600, 20971520⟩ := by decide
+/-- percentage mode, default spike of 20 % -/
+example : validate { exCfg with limitMiB := 0, spikeMiB := 0, limitPct := 50 } = 0 ∧
+    mkChecker { exCfg with limitMiB := 0, spikeMiB := 0, limitPct := 50 } 1000 = ⟨500, 100⟩ := by decide
+/-- a rejected configuration: spike = limit -/
+example : validate { exCfg with spikeMiB := 100 } = 5 := by decide
+
+/-- soft-limited: GC not due at t=5 (interval 10), due at t=11 and it helps; hard-limited at t=14: due (interval 2) -/
+example : (runChecks ⟨100, 20⟩ 10 2 {} [⟨5, 85, 0, 0⟩, ⟨11, 85, 0, 10⟩, ⟨12, 79, 0, 0⟩, ⟨14, 100, 1, 90⟩]).map
+    (fun o => (o.st.mustRefuse, o.gcRan, o.st.lastGC)) = [(true, false, 0), (false, true, 11), (false, false, 11), (true, true, 15)] := by decide
+
+example : (RC.run {} [.start, .start, .shutdown]).checking = true ∧ (RC.run {} [.start, .shutdown, .start]).checking = true ∧
+    (RC.run {} [.start, .shutdown]).checking = false := by decide
+
 end OtelVerif.C18
